@@ -182,6 +182,20 @@ def handle (req : Sexp) : Sexp :=
         | none => .list [.atom "err", .atom "fuel"]
       | none => bad
     | none => bad
+  | .list [.atom "replace", hp, hr, v] =>
+    -- parameters are numbered: 0 = the candidate (passed or kept), 1 = the repaired ones
+    match hp.asBool?, hr.asBool?, v.asBool? with
+    | some hp, some hr, some v =>
+      let m : MState Nat Nat := ⟨0, 0⟩
+      let res := modelReplace (fun _ _ => v) (fun _ _ => 1) m (if hp then some 0 else none) (if hr then some 0 else none)
+      .atom (if res.params = 0 then "keep" else "repair")
+    | _, _, _ => bad
+  | .list [.atom "mcreate", v] =>
+    match v.asBool? with
+    | some v =>
+      let res := modelCreate (fun (_ _ : Nat) => v) (fun _ _ => 1) 0 0
+      .atom (if res.params = 0 then "keep" else "repair")
+    | none => bad
   | .list [.atom "triroot", n] =>
     match n.asNat? with
     | some n => Sexp.ofNat (triangularRoot n)
